@@ -93,6 +93,8 @@ pub struct Scn {
     pub uni_frozen: bool,
     /// the code the peer uses whenever it resets one of its streams in this scenario
     pub reset_code: u64,
+    /// the transport hands out waiting streams newest first (no order is promised by the h3::quic traits)
+    pub newest_first: bool,
     pub send_credit: u64,
     pub streams: Vec<UniStream>,
     pub style: Style,
@@ -474,7 +476,7 @@ async fn client_app(net: Net, grease: bool, o: Shared<Obs>, sh: Shared<Option<Ar
 fn scn_json(s: &Scn) -> Value {
     json!({
         "role": if s.server { "server" } else { "client" }, "grease": s.grease, "webtransport": s.webtransport,
-        "uni_credit": if s.uni_credit == UNLIMITED { -1 } else { s.uni_credit as i64 }, "uni_frozen": s.uni_frozen, "reset_code": s.reset_code.to_string(), "send_credit": if s.send_credit == UNLIMITED { -1 } else { s.send_credit as i64 },
+        "uni_credit": if s.uni_credit == UNLIMITED { -1 } else { s.uni_credit as i64 }, "uni_frozen": s.uni_frozen, "reset_code": s.reset_code.to_string(), "newest_first": s.newest_first, "send_credit": if s.send_credit == UNLIMITED { -1 } else { s.send_credit as i64 },
         "style": format!("{:?}", s.style), "streams": s.streams.iter().map(|st| format!("{:?} form={} end={:?}", st.kind, st.type_form, st.end_after)).collect::<Vec<_>>(),
     })
 }
@@ -583,6 +585,7 @@ pub fn run_scn(s: &Scn, merge: &mut Tape, sched: &mut Tape, ctx: &mut Ctx) -> Ve
         g.default_credit[h3_side.idx()] = s.send_credit;
         g.ends[h3_side.idx()].stream_credit[1] = s.uni_credit;
         g.ends[h3_side.idx()].grants_frozen = s.uni_frozen && s.uni_credit == 3;
+        g.ends[h3_side.idx()].accept_newest_first = s.newest_first;
     }
     let o: Shared<Obs> = shared(Obs::default());
     let sh: Shared<Option<Arc<SharedState>>> = shared(None);
@@ -783,7 +786,7 @@ fn gen(t: &mut Tape, bounded: bool) -> Scn {
     }
     // keep scenarios to at most two violating elements
     loop {
-        let m = model(&Scn { server, grease: false, webtransport: false, uni_credit: UNLIMITED, uni_frozen: false, reset_code: 0x10c, send_credit: UNLIMITED, streams: streams.clone(), style: Style::Eager, sig: (false, false) });
+        let m = model(&Scn { server, grease: false, webtransport: false, uni_credit: UNLIMITED, uni_frozen: false, reset_code: 0x10c, newest_first: false, send_credit: UNLIMITED, streams: streams.clone(), style: Style::Eager, sig: (false, false) });
         if m.violations.len() <= 2 || streams.len() <= 1 {
             break;
         }
@@ -798,6 +801,7 @@ fn gen(t: &mut Tape, bounded: bool) -> Scn {
             uni_credit: [UNLIMITED, 3, 0, 3][credit_mode],
             uni_frozen: credit_mode == 3,
             reset_code: [0x10cu64, 0x100][credit_mode % 2],
+            newest_first: credit_mode == 1,
             send_credit: [UNLIMITED, 0, 5, UNLIMITED][credit_mode],
             streams,
             style: if t.bool() { Style::Tiny } else { Style::Eager },
@@ -815,6 +819,7 @@ fn gen(t: &mut Tape, bounded: bool) -> Scn {
         },
         uni_frozen: credit_mode == 3,
         reset_code: *t.choose(&[0x10cu64, 0x100, 0, 0x104, 0x101, 0x77, (1 << 62) - 1]),
+        newest_first: t.chance(1, 4),
         send_credit: match credit_mode {
             0 => UNLIMITED,
             1 => 0,
